@@ -200,8 +200,8 @@ func (C01) Generate(seed uint64, tier string) *core.Scenario {
 type c01Store struct {
 	config  string
 	cs      chunks.ChunkStore
-	nbs     *nbs.NomsBlockStore     // single store configs
-	gen     *nbs.GenerationalNBS    // generational configs
+	nbs     *nbs.NomsBlockStore  // single store configs
+	gen     *nbs.GenerationalNBS // generational configs
 	closers []func() error
 }
 
